@@ -84,11 +84,12 @@ type Conn struct {
 	wdeadline time.Time
 	dnotify   chan struct{} // closed+replaced when a deadline changes
 
-	closed     atomic.Bool
-	dead       atomic.Bool // killed by a fault plan: local writes fail
-	closeCount atomic.Int32
-	closedAt   atomic.Int64 // UnixNano of the first Close
-	ID         int64
+	closed      atomic.Bool
+	dead        atomic.Bool // killed by a fault plan: local writes fail
+	closeCount  atomic.Int32
+	closedAt    atomic.Int64 // UnixNano of the first Close
+	writeLinger atomic.Int64 // see SetWriteLinger
+	ID          int64
 
 	// WriteChunks records the size of every Write call (segmentation seen by this end).
 	wmu         sync.Mutex
@@ -211,18 +212,29 @@ func (c *Conn) Write(p []byte) (int, error) {
 	c.wmu.Unlock()
 	h := c.out
 	total := 0
+	waited := false
+	// linger: a Write that was BLOCKED when the link ended returns its error only this much later
+	// (a wrapped or tunnelled connection need not unblock its writers the instant it is closed)
+	linger := func() {
+		if d := time.Duration(c.writeLinger.Load()); waited && d > 0 {
+			time.Sleep(d)
+		}
+	}
 	for {
 		_, wd, dch := c.deadlines()
 		h.mu.Lock()
 		switch {
 		case c.closed.Load():
 			h.mu.Unlock()
+			linger()
 			return total, net.ErrClosed
 		case h.reset || c.dead.Load():
 			h.mu.Unlock()
+			linger()
 			return total, ErrReset
 		case h.rclosed:
 			h.mu.Unlock()
+			linger()
 			return total, ErrReset // EPIPE-like
 		}
 		if len(p) == 0 {
@@ -271,11 +283,15 @@ func (c *Conn) Write(p []byte) (int, error) {
 		}
 		ch := h.notify
 		h.mu.Unlock()
+		waited = true
 		if wait(ch, dch, wd) {
 			return total, timeoutError{}
 		}
 	}
 }
+
+// SetWriteLinger makes a Write that is blocked when the link ends return only d later.
+func (c *Conn) SetWriteLinger(d time.Duration) { c.writeLinger.Store(int64(d)) }
 
 // markLocalReset makes this end's subsequent reads fail (the link is dead for us) while the
 // peer can still drain what was delivered and then sees EOF.
